@@ -138,9 +138,10 @@ fn build(v: &MapVal) -> SourceMap {
 fn fields(m: &SourceMap) -> MapVal {
   MapVal {
     mappings: m.mappings().to_string(),
-    sources: m.sources().to_vec(),
+    // through the indexed accessors (they must agree with the slices)
+    sources: (0..m.sources().len() + 1).map_while(|i| m.get_source(i).map(|s| s.to_string())).collect(),
     contents: m.sources_content().to_vec(),
-    names: m.names().to_vec(),
+    names: (0..m.names().len() + 1).map_while(|i| m.get_name(i).map(|s| s.to_string())).collect(),
     file: m.file().map(|s| s.to_string()),
     source_root: m.source_root().map(|s| s.to_string()),
     debug_id: m.get_debug_id().map(|s| s.to_string()),
